@@ -210,6 +210,11 @@ def evaluate(case):
             _cmp(kd.to_dict(_call(lambda: kd.mk_raw(alg, list(got), list(got.values())) * oc, "outer-series", "gp")),
                  {k: (float(v) if isinstance(v, F) else v) for k, v in kd.to_dict(os_).items()}, "outertan*outercos=outersin", fn,
                  "outertan(x) * outercos(x) vs outersin(x)")
+        # the empty multivector (the zero element storing no blade) is in the domain too: the series starts with 1
+        empty = kd.mk(alg, [], [])
+        e_exp = {0: 1} if fn in ("outerexp", "outercos") else {}
+        e_got = kd.to_dict(_call(lambda: getattr(empty, fn)(), "outer-series", fn, f"{fn}(empty multivector)"), op=fn)
+        _cmp(e_got, e_exp, "outer-series", fn, f"{fn} of the empty multivector (signature {ref.sig})")
         nz = [t for t in terms[2:] if clean(t)]
         nontrivial = len(nz) >= 2 or (len(nz) >= 1 and len({pc(k) for k in keys}) >= 2)
         labels.append(f"fn:{fn}")
@@ -320,6 +325,16 @@ def evaluate(case):
         ok, why = kd.elem_equal(got, exp)
         if not ok:
             raise Violation("integer-power", "pow", f"x**{n} for x = {kd.show(dx)} in signature {ref.sig}: {why}", observed=kd.show(got), expected=kd.show(exp))
+        # the same power inside a compiled (registered) function
+        if ref.d <= 4 and len(keys) <= 6:
+            def f_pow(a, _n=n):
+                return a ** _n
+            rg = kd.to_dict(_call(lambda: alg.register(f_pow)(x), "integer-power", "pow", f"alg.register(lambda a: a**{n})(x)"), op="pow")
+            ok, why = kd.elem_equal(rg, exp)
+            if not ok:
+                raise Violation("integer-power", "pow", f"alg.register(lambda a: a**{n})(x) for x = {kd.show(dx)} in signature {ref.sig}: {why}",
+                                observed=kd.show(rg), expected=kd.show(exp))
+            counters["checked:registered-power"] = 1
         nontrivial = abs(n) >= 2 and len(keys) >= 2
         labels.append(f"n:{n}")
     else:
